@@ -45,6 +45,9 @@ func cpmImage(cx *Ctx) (map[int]byte, error) {
 	if g := sp.Var("init$guard"); g != nil {
 		in.InitOverride["global:"+g.RelString(nil)+"|"] = c.Const(1, 0)
 	}
+	// neither function has an input: both are interpreted concretely (loops
+	// are executed, e.g. a table of blocks copied one by one)
+	in.Unroll = true
 	_, st1, err := in.Run(initf, nil, absint.NewState())
 	if err != nil {
 		return nil, err
@@ -625,8 +628,9 @@ func c18Writers(cx *Ctx, r *ev.Report) {
 		return
 	}
 	var det []string
+	initFns := rules.InitClosure(allFunctions(cx.P))
 	for fn := range allFunctions(cx.P) {
-		if fn.Pkg != sp || fn.Name() == "init" {
+		if fn.Pkg != sp || initFns[fn] {
 			continue
 		}
 		for _, b := range fn.Blocks {
@@ -662,7 +666,7 @@ func c18Writers(cx *Ctx, r *ev.Report) {
 	// machine hands to its writer cannot be another machine's
 	var fns []*ssa.Function
 	for fn := range allFunctions(cx.P) {
-		if fn.Pkg == sp && fn.Name() != "init" && !strings.HasPrefix(fn.Name(), "init#") {
+		if fn.Pkg == sp && !initFns[fn] {
 			fns = append(fns, fn)
 		}
 	}
